@@ -2,7 +2,7 @@
 driver executable, every harness crate against /repo's working tree. Checks rebuild on demand, so a
 partial failure here is reported but does not stop the rest."""
 import glob, os, re, shutil, sys, time
-from . import sh, LEAN, VERIF, BUILD, REPO
+from . import sh, LEAN, VERIF, BUILD, REPO, CHAN_RUSTFLAGS
 
 def main():
     t0 = time.time()
@@ -22,7 +22,7 @@ def main():
         hdir = os.path.dirname(d)
         if not os.path.exists(os.path.join(hdir, "Cargo.lock")) and os.path.exists(os.path.join(REPO, "Cargo.lock")):
             shutil.copy(os.path.join(REPO, "Cargo.lock"), os.path.join(hdir, "Cargo.lock"))
-        flags = "--cfg loom" if name == "chan" else "--cfg excsn_fibre_verif"
+        flags = CHAN_RUSTFLAGS if name == "chan" else "--cfg excsn_fibre_verif"
         env = {"CARGO_TARGET_DIR": os.path.join(BUILD, "cargo", name), "RUSTFLAGS": flags}
         rc, out, err = sh(["cargo", "build", "--release", "--offline"], cwd=hdir, env=env, timeout=7200)
         print("cargo build harness/%-12s rc=%d (%.0fs)" % (name, rc, time.time() - t0)); sys.stdout.flush()
